@@ -29,6 +29,11 @@ pub async fn handle(
                     stream_id
                 )
             })?;
+    // Journal the ID that was actually assigned, so that replay cannot assign another one.
+    let command = CreateStream {
+        stream_id: Some(stream.stream_id),
+        name: command.name,
+    };
     let response = mapper::map_stream(stream);
 
     let system = system.downgrade();
